@@ -17,6 +17,7 @@ RULE = ("dyadic refinement trees (midpoint splits; uniform/one-sided/graded/comp
         "Legendre exactness up to 2m+1 (2m-1 balanced) on complete grids of depth m, full-tree invariant, cache transparency. "
         "distinct = digest(variant, level sequence, interval); non-trivial = non-complete tree or depth>=2")
 RULE += (" " + 'The observed set_grid is preceded by 0..2 other trees (mirror image of the same size, or unrelated) set and used on the SAME object, and integrate() is called before or after get_weights().')
+RULE += (" General intervals include short decimal end points; in 30% of the cases the caller reuses ONE pair of list objects (set_grid, modify in place, set_grid again).")
 REQUIRED = ["weight_count", "weights_sum_to_length", "linear_exact", "complete_grid_order", "balanced_weights_moments",
             "balanced_complete_order", "full_tree_superset", "full_tree_zero_or_two_children", "wrapper_cache_transparent",
             "integrate_equals_weighted_sum"]
@@ -110,8 +111,12 @@ def run_case(case, res):
     gen = rng.choice(GENS)
     a, b = rng.choice(FRIENDLY)
     if gen == "general_interval":
-        a = rng.uniform(-2, 2)
-        b = a + rng.uniform(0.1, 3)
+        if rng.random() < 0.5:
+            a = rng.uniform(-2, 2)
+            b = a + rng.uniform(0.1, 3)
+        else:   # short decimal end points: midpoints and left + i*h differ in the last bit on such intervals
+            a = rng.choice([0.1, -0.3, 0.2, 0.7, -1.1, 0.3, 1.9, -0.7])
+            b = a + rng.choice([0.6, 1.2, 1.1, 0.3, 0.9, 2.3])
     style = rng.choice(["uniform", "left", "right", "graded", "complete+", "complete"])
     if style == "complete":
         m = rng.randint(1, 5)
@@ -153,9 +158,23 @@ def run_case(case, res):
             except AssertionError:
                 pass
         val_first = None
+        gl, ll = list(xs), list(lv)
+        if rng.random() < 0.3:
+            # the caller keeps ONE pair of list objects, refines them in place and hands them over again
+            hx, hl = trees.gen_tree(rng, a, b, style=rng.choice(["uniform", "left", "right", "graded"]))
+            gl, ll = [float(x) for x in hx], [int(x) for x in hl]
+            try:
+                with quiet:
+                    eg.set_grid(gl, ll)
+                    eg.get_weights()
+                res.count("caller_lists_reused_in_place")
+            except AssertionError:
+                pass
+            gl[:] = list(xs)
+            ll[:] = list(lv)
         try:
             with quiet:
-                eg.set_grid(list(xs), list(lv))
+                eg.set_grid(gl, ll)
                 if rng.random() < 0.5:
                     val_first = eg.integrate(Polynomial1d(coeffs))
                     res.count("integrate_before_get_weights")
